@@ -127,6 +127,7 @@ def ob_d(layout: int, s1: str, s2: str) -> bool:
     with stubs.stub_importers(lambda header: stubs.StubSpineImporter(tk.TokenCategory.LYRICS)):
         imp = Importer()
         doc = imp.run(rows)
+    stubs.require_used()
     check(not imp.errors, 'errors reported')
     _check_tree(doc, rows, model)
     for r, rcells in enumerate(model):
@@ -277,7 +278,7 @@ OBLIGATIONS = [
        witnesses=[{'layout': 1, 's1': 'ab', 's2': '!x'}], min_confirmed=20,
        symbolic='two cell texts (arbitrary Unicode strings, 1..3 chars quick / 1..5 thorough) used for all data cells',
        enumerated='layout selector (1-2 spines, <= 2 operator rows, <= 3 columns)',
-       stubs=['StubSpineImporter (SimpleToken(text, LYRICS)) in place of createImporter; rows handed to Importer.run directly (no csv)'],
+       stub_optional=True, stubs=['StubSpineImporter (SimpleToken(text, LYRICS)) in place of createImporter; rows handed to Importer.run directly (no csv)'],
        assumptions=['data cells do not start with * and the text does not start with !! (those are interpretations / global comments by Humdrum syntax)'],
        bounds={'quick': 'strings <= 3 chars', 'thorough': 'strings <= 5 chars'}),
 ]
